@@ -338,7 +338,7 @@ Definition class_pre (s : str) : str :=
 
 Lemma class_name_unfold : forall s,
   class_name s = let c2 := class_pre s in
-                 if is_kw c2 || is_kw (map lower_ascii c2) || is_reserved (map lower_ascii c2) then c2 ++ [95] else c2.
+                 if class_flag c2 then c2 ++ [95] else c2.
 Proof. reflexivity. Qed.
 
 Lemma class_pre_ident : forall s, is_ident (class_pre s) = true.
@@ -362,7 +362,7 @@ Qed.
 Theorem class_name_ident : forall s, is_ident (class_name s) = true.
 Proof.
   intro s. rewrite class_name_unfold. cbv zeta.
-  destruct (is_kw (class_pre s) || is_kw (map lower_ascii (class_pre s)) || is_reserved (map lower_ascii (class_pre s))).
+  destruct (class_flag (class_pre s)).
   - apply is_ident_snoc; [apply class_pre_ident | reflexivity].
   - apply class_pre_ident.
 Qed.
@@ -378,9 +378,9 @@ Theorem class_name_valid : forall s, valid_name (class_name s) = true.
 Proof.
   intro s. apply valid_name_intro; [apply class_name_ident|].
   rewrite class_name_unfold. cbv zeta.
-  destruct (is_kw (class_pre s) || is_kw (map lower_ascii (class_pre s)) || is_reserved (map lower_ascii (class_pre s))) eqn:E.
+  destruct (class_flag (class_pre s)) eqn:E.
   - intro H. rewrite not_kw_snoc_us in H. discriminate H.
-  - intro H. rewrite H in E. discriminate E.
+  - intro H. unfold class_flag in E. rewrite H in E. discriminate E.
 Qed.
 
 (* ================================================================= sanitize_method_name *)
@@ -693,7 +693,7 @@ Qed.
 Lemma class_name_cases : forall s, class_name s = class_pre s \/ class_name s = class_pre s ++ [95].
 Proof.
   intro s. rewrite class_name_unfold. cbv zeta.
-  destruct (is_kw (class_pre s) || is_kw (map lower_ascii (class_pre s)) || is_reserved (map lower_ascii (class_pre s))); [right | left]; reflexivity.
+  destruct (class_flag (class_pre s)); [right | left]; reflexivity.
 Qed.
 
 Lemma class_name_has_alnum : forall s, has_alnum (class_name s) = true.
